@@ -50,6 +50,7 @@ for call in calls:
         _v = ns[name](*[eval(a) for a in args])
         results.append(['ok', repr(_v), [repr(_v), str(_v), format(_v)]])
     except BaseException as e:
-        results.append(['raise', type(e).__name__])
+        where = [f.lineno for f in traceback.extract_tb(e.__traceback__) if f.filename == 'answer.py']
+        results.append(['raise', type(e).__name__, where[-1] if where else None])
 sys.stdout = real_out
 json.dump({'stdout': buf.getvalue(), 'globals': before, 'globals_after': dump(ns), 'outcome': outcome, 'calls': results}, open(out_path, 'w'))
